@@ -113,7 +113,7 @@ fn eval(c: &Case) -> Res {
     let (got, src_after, layer_clean) = match r {
         Ok(v) => v,
         Err(p) => {
-            if p.contains("sw-composite") && p.contains("overflow") {
+            if crate::checks::common::is_dependency_panic(&p) {
                 return Res::Skip;
             }
             return Res::Bad(Violation::new(format!("{}/panic", op_kind(c.op)), case_str(c), format!("subject panicked: {}", p)));
